@@ -38,6 +38,15 @@ def sub(args, boundscheck, timeout=1500):
     return p
 
 
+def sub_start(args, boundscheck):
+    env = dict(os.environ)
+    env["NUMBA_BOUNDSCHECK"] = "1" if boundscheck else "0"
+    env["NUMBA_CACHE_DIR"] = os.path.join(tlc.CACHE, "numba-bc" if boundscheck else "numba")
+    env["PYTHONPATH"] = os.path.join(HERE, "harness") + ":" + os.path.join(HERE, "vendor")
+    return subprocess.Popen([sys.executable, "-m", "vf.kernel_runner"] + [str(a) for a in args], env=env, cwd=HERE,
+                            stdout=subprocess.PIPE, stderr=subprocess.STDOUT, text=True)
+
+
 def layouts(arr, rng):
     """C-ordered, Fortran-ordered and sliced views of the same values"""
     out = {"C": np.ascontiguousarray(arr)}
@@ -125,11 +134,18 @@ def run(ctx):
     # (b) public entry points, with and without bounds checking
     outs = {}
     with ctx.timed("battery"):
-        for bc in (True, False):
+        procs = {}
+        for bc in (True, False):            # the two executions run side by side
             o = os.path.join(tlc.CACHE, "traces", "c17-battery-%d.json" % int(bc))
-            p = sub(["battery", ctx.seed + 1, o], bc)
-            if p.returncode != 0:
-                ctx.machinery("battery subprocess (boundscheck=%s) failed:\n%s" % (bc, p.stdout[-3000:]))
+            procs[bc] = (o, sub_start(["battery", ctx.seed + 1, o], bc))
+        for bc, (o, pr) in procs.items():
+            try:
+                out, _ = pr.communicate(timeout=1500)
+            except subprocess.TimeoutExpired:
+                pr.kill()
+                ctx.machinery("battery subprocess (boundscheck=%s) timed out" % bc)
+            if pr.returncode != 0:
+                ctx.machinery("battery subprocess (boundscheck=%s) failed:\n%s" % (bc, out[-3000:]))
             outs[bc] = json.load(open(o))
     plain = {x["name"]: x for x in outs[False]["results"]}
     for x in outs[True]["results"]:
